@@ -587,7 +587,8 @@ Certificate(P, claim) ==
         ELSE IF declared # claimed THEN "symbol-table"
         ELSE IF \E x \in declared : symOf(x).wide \/ ~symOf(x).int THEN "skip:wide-or-non-integer-symbol"
         ELSE
-    LET symv == [x \in declared |-> IntV(symOf(x).v, -1)] IN
+    \* (a symbol's value carries its size: what reads a constant sees both)
+    LET symv == [x \in declared |-> IntV(symOf(x).v, IF "size" \in DOMAIN symOf(x) THEN symOf(x).size ELSE -1)] IN
         \* directive arguments: evaluated under the claimed values at the claimed position
         IF \E i \in 1..n : HasArgExpr(P.items[i])
         THEN LET args == [i \in 1..n |-> IF HasArgExpr(P.items[i]) THEN Eval(P.items[i].e, ClaimEnv(P, d, claim, symv, i)).v
@@ -608,7 +609,8 @@ Certificate(P, claim) ==
         ELSE
     LET constBad(i) ==
             LET x == AsInt(Eval(P.items[i].e, ClaimEnv(P, d, claim, symv, i)).v) IN
-            IF x.t = "big" THEN "skip" ELSE IF x.t = "int" /\ x.v = symv[d.names[i]].v THEN "" ELSE "bad"
+            IF x.t = "big" THEN "skip"
+            ELSE IF x.t = "int" /\ x.v = symv[d.names[i]].v /\ x.s = symv[d.names[i]].s THEN "" ELSE "bad"
         instrBad(i) ==
             LET e == Encoding(P, P.items[i].toks, cands[i], ClaimEnv(P, d, claim, symv, i)) IN
             IF e.t = "big" THEN "skip"
